@@ -1,10 +1,14 @@
 #!/bin/bash
-# usage: with_patch.sh [-R] <patch.diff> <command...>   — applies the patch to /repo, runs the command, undoes it.
+# usage: with_patch.sh [-R] <patch.diff> <command...>
+# Runs the command against a scratch copy of /repo with the patch applied (VERIF_REPO points at the copy);
+# /repo itself is never touched, so background runs are not disturbed. The copy is removed afterwards.
 REV=""
 if [ "$1" = "-R" ]; then REV="-R"; shift; fi
 PATCH=$1; shift
-if [ -n "$(git -C /repo status --porcelain)" ]; then echo "repo dirty"; exit 3; fi
-git -C /repo apply $REV "$PATCH" || { echo "patch does not apply"; exit 3; }
-"$@"; rc=$?
-git -C /repo checkout -- . && git -C /repo clean -fdq
+COPY=$(mktemp -d /tmp/mutrepo-XXXXXX)
+cp -r /repo/. "$COPY"/
+git -C "$COPY" apply $REV "$PATCH" || { echo "patch does not apply"; rm -rf "$COPY"; exit 3; }
+git -C "$COPY" -c user.email=x@x -c user.name=x commit -qam mutant >/dev/null 2>&1
+VERIF_REPO="$COPY" "$@"; rc=$?
+rm -rf "$COPY"
 exit $rc
